@@ -11,6 +11,8 @@
   Models: SH.Model.Agg (ItemValue/ItemCounter.Merge, AddValueCounterHost, tsValues.merge), SH.Model.Unique (ChUnique).
   Part 1: values and hosts, every binary merge tree with every stream of random draws (`Tree`).
   Part 2: API rows (`TsTree`).
+  Part 5: MultiValue.ApplyUnique (event-level entry) is a Merge with one contribution plus a stream of inserts.
+  Part 4: the concrete open-addressing table (SH.Model.UniqueTable) refines the set model of Part 3 (`table_refines`, partial).
   Part 3: the unique sketch: every program of inserts and merges ends in the canonical state of the set of inserted
           hashes, for arbitrary parameters (size limit); `decide` witnesses on a toy instance show that the code before
           the fix (`MergeV.rhsGood`, `ReadV.stale`, `SdV.exact`) does not.
@@ -19,6 +21,7 @@
 import SH.Model.Agg
 import SH.Gen.C04
 import SH.Lemmas.UniqueTrie
+import SH.Lemmas.UniqueTable
 namespace SH.C04
 open SH.Agg
 
@@ -1252,5 +1255,152 @@ theorem tsUnique_good (P : Params) (hP : PWF P) (v r : Ts) (U1 U2 W : Finset ℕ
     rw [Finset.empty_union] at h1
     exact merge_good P hP _ r.u U1 U2 W h1 hr
   · exact merge_good P hP v.u r.u U1 U2 W hv hr
+
+/-! ## Part 4 — the open-addressing table refines the set model (`table_refines`)
+
+  SH.Model.UniqueTable is the table as the code has it (buf, place, linear probing with wrap-around, rehash with its two
+  loops, resize with the relocation loop). `Refines P t s`: the set model `s` has the same skipDegree, sizeDegree,
+  itemsCount and exactly the values stored in the table `t`. `WF P t`: 2^sizeDegree slots, no value stored twice, every
+  stored value reachable from its home slot without crossing an empty slot, itemsCount = occupied slots (+ zero item).
+
+  FULL STATEMENT (not proved in full):
+    theorem table_refines : for every sequence of insertHash / Merge / MergeRead steps from Reset, `WF` is an invariant of
+      the table and `Refines` holds after every step.
+  PROVED: every table operation commutes with the abstraction (`table_refines_insertImpl`, `table_rehash_values`,
+    `table_resize_values`, and one whole insertHash step from a well-formed table, `table_refines_step_partial`), insertImpl
+    keeps `WF`, and `WF` is decided by the executable `wfb` (`wfb_decides_WF`) which the driver evaluates after every
+    replayed op.
+  MISSING: that rehash and resize (with the `i < oldSize || buf[i] != 0` bound) re-establish reachability. That this is
+    the part the table's correctness hangs on is shown by the witness below: with the loop bound shortened to
+    `i < oldSize` every theorem of this part still holds (the values are the same), but a wrapped value is stranded, `WF`
+    fails, and the next insert of that value is counted twice.
+-/
+open SH.UTable
+
+/-- insertImpl on the table = insertImpl on the set, and the table stays well-formed (given one free slot) -/
+theorem table_refines_insertImpl (P : Params) (t : Tb) (s : Sk) (w : WF P t) (r : Refines P t s) (x : Nat) (hx : x < 2 ^ P.bits)
+    (j : Nat) (hj : j < size t) (hj0 : get t j = 0) :
+    WF P (UTable.insertImpl P t x) ∧ Refines P (UTable.insertImpl P t x) (Unique.insertImpl P s x) :=
+  insertImpl_refines P t s w r x hx j hj hj0
+
+/-- in a well-formed table the probe finds every stored value at its slot (no stranded values) -/
+theorem table_lookup_complete (P : Params) (t : Tb) (h : WF P t) (i : Nat) (hi : i < size t) (hx : get t i ≠ 0) :
+    probe t (get t i) (size t) (place P t (get t i)) = some i := lookup_complete P t h i hi hx
+
+/-- rehash (first pass + "process the first collision resolution chain once again") = thinning of the set -/
+theorem table_rehash_values (P : Params) (t : Tb) (s : Sk) (h : Tidy t) (r : Refines P t s) (k' : Nat) :
+    Tidy (UTable.rehash P { t with k := k' }) ∧
+    Refines P (UTable.rehash P { t with k := k' }) (Unique.rehash P { s with k := k' }) := rehash_refines P t s h r k'
+
+/-- resize = the set with a larger sizeDegree; true for the real loop bound and for the shortened one -/
+theorem table_resize_values (v : ResizeV) (P : Params) (t : Tb) (s : Sk) (h : Tidy t) (r : Refines P t s) (n : Nat) (hn : t.sd ≤ n) :
+    Tidy (resize v P t n) ∧ Refines P (resize v P t n) { s with sd := n } := resize_refines v P t s h r n hn
+
+/-- one insertHash step (insertImpl + shrinkIfNeed: thinning loop or resize) from a well-formed table agrees with the set
+    model on values, itemsCount, skipDegree, sizeDegree. Partial: `WF` of the result is not derived when the step resized
+    or thinned (see the header). -/
+theorem table_refines_step_partial (v : ResizeV) (P : Params) (t : Tb) (s : Sk) (w : WF P t) (r : Refines P t s) (x : Nat)
+    (hx : x < 2 ^ P.bits) (j : Nat) (hj : j < size t) (hj0 : get t j = 0) :
+    Tidy (UTable.insertHash v P t x) ∧ Refines P (UTable.insertHash v P t x) (Unique.insertHash P s x) :=
+  insertHash_refines_values v P t s w r x hx j hj hj0
+
+/-- the executable check is the invariant -/
+theorem wfb_decides_WF (P : Params) (t : Tb) (ha : t.alloc = true) : wfb P t = true ↔ WF P t := wfb_iff P t ha
+
+/-! ### witnesses: 6-bit hashes, tables of 4 → 8 slots. 28 has home slot 3 (7 after the resize), 12 has home slot 3 in both
+    tables and wraps to slot 0, 4 is the third value that triggers the resize. -/
+
+def toyT : Params := { bits := 6, maxDeg := 4, initDeg := 2 }
+def tabOf (v : ResizeV) (xs : List Nat) : Tb := xs.foldl (UTable.insertHash v toyT) (UTable.reset toyT)
+
+/-- before the resize: [12, 0, 0, 28] — 12 wrapped around the end of the table; well-formed -/
+example : (tabOf .full [28, 12]).buf = #[12, 0, 0, 28] ∧ wfb toyT (tabOf .full [28, 12]) = true := by decide
+
+/-- the real loop (`i < oldSize || buf[i] != 0`): 12 is first moved past the old end (slot 4) and, after 28 has left slot 3,
+    moved once more into its home slot: [0, 4, 0, 12, 0, 0, 0, 28], well-formed -/
+example : (tabOf .full [28, 12, 4]).buf = #[0, 4, 0, 12, 0, 0, 0, 28] ∧ WF toyT (tabOf .full [28, 12, 4]) :=
+  ⟨by decide, (wfb_decides_WF toyT _ (by decide)).mp (by decide)⟩
+
+/-- seeded change C03-2 (`i < oldSize` only): 12 stays in slot 4 behind its empty home slot 3. Same values, same
+    itemsCount — the set-level theorems above hold — but the table is not well-formed … -/
+example : (tabOf .oldOnly [28, 12, 4]).buf = #[0, 4, 0, 0, 12, 0, 0, 28] ∧ (tabOf .oldOnly [28, 12, 4]).cnt = 3 ∧
+    ¬ WF toyT (tabOf .oldOnly [28, 12, 4]) :=
+  ⟨by decide, by decide, fun w => absurd ((wfb_decides_WF toyT _ (by decide)).mpr w) (by decide)⟩
+
+/-- … the probe no longer finds 12, and inserting 12 again stores it a second time: itemsCount 4 for 3 distinct values,
+    where the unchanged code answers 3 -/
+example : probe (tabOf .oldOnly [28, 12, 4]) 12 8 (place toyT (tabOf .oldOnly [28, 12, 4]) 12) = some 3 ∧
+    (UTable.insertImpl toyT (tabOf .oldOnly [28, 12, 4]) 12).cnt = 4 ∧
+    (UTable.insertImpl toyT (tabOf .full [28, 12, 4]) 12).cnt = 3 := by decide
+
+/-- non-vacuity of the hypotheses of `table_refines_insertImpl` / `table_refines_step_partial`: a well-formed table with a free
+    slot and the set model built from the same inserts -/
+example : WF toyT (tabOf .full [28, 12]) ∧ get (tabOf .full [28, 12]) 1 = 0 ∧
+    (ofList toyT [28, 12]).cnt = (tabOf .full [28, 12]).cnt :=
+  ⟨(wfb_decides_WF toyT _ (by decide)).mp (by decide), by decide, by decide⟩
+
+example : Refines toyT (tabOf .full [28, 12]) (ofList toyT [28, 12]) :=
+  { alloc := by decide, k := by decide, sd := by decide, cnt := by decide, vals := by decide, bound := by decide }
+
+
+open SH.Agg
+
+/-! ## Part 5 — ApplyUnique (the event-level entry) is a merge with one leaf plus a stream of inserts -/
+
+theorem fold_addOnly_set (h : Host) : ∀ (vs : List Int) (t : Value), (vs ≠ [] ∨ t.set = true) →
+    (vs.foldl (fun t v => addOnlyValue t v 4 h) t).set = true := by
+  intro vs
+  induction vs with
+  | nil => intro t ht; rcases ht with a | a; exact absurd rfl a; simpa using a
+  | cons v vs ih =>
+    intro t _
+    simp only [List.foldl_cons]
+    apply ih
+    right
+    simp [addOnlyValue, setMin, setMax]
+
+theorem fold_addOnly_cnt (h : Host) : ∀ (vs : List Int) (t : Value),
+    (vs.foldl (fun t v => addOnlyValue t v 4 h) t).cnt = t.cnt := by
+  intro vs
+  induction vs with
+  | nil => intro t; rfl
+  | cons v vs ih =>
+    intro t
+    simp only [List.foldl_cons]
+    rw [ih]
+    simp [addOnlyValue, setMin, setMax]; split <;> split <;> rfl
+
+/-- the item ApplyUnique merges is a contribution in the sense of Part 1 (`Wf`) -/
+theorem uniqueItem_wf (hashes : List Int) (c : Int) (h : Host) (hc : 0 ≤ c) (hne : hashes ≠ []) : Wf (uniqueItem hashes c h) := by
+  have hset := fold_addOnly_set h hashes (simpleCounter c h) (Or.inl hne)
+  have hcnt := fold_addOnly_cnt h hashes (simpleCounter c h)
+  unfold uniqueItem
+  simp only
+  split
+  · refine ⟨?_, ?_⟩
+    · show (hashes.foldl (fun t v => addOnlyValue t v 4 h) (simpleCounter c h)).cnt ≥ 0
+      rw [hcnt]; simpa [simpleCounter, zero] using hc
+    · intro hh
+      have : (hashes.foldl (fun t v => addOnlyValue t v 4 h) (simpleCounter c h)).set = false := hh
+      rw [hset] at this; cases this
+  · refine ⟨?_, ?_⟩
+    · rw [hcnt]; simpa [simpleCounter, zero] using hc
+    · intro hh; rw [hset] at hh; cases hh
+
+/-- ApplyUnique = ItemValue.Merge with `uniqueItem` (so Part 1 applies to event streams that contain unique events) and a
+    stream of Insert calls on the sketch (so Part 3 applies: `Prog.ins`) -/
+theorem applyUnique_eq (P : Unique.Params) (d : Nat) (s : Multi) (hashes : List Int) (c : Int) (h : Host) (hne : hashes ≠ []) :
+    (applyUnique P d s hashes c h).v = merge d s.v (uniqueItem hashes c h) ∧
+    (applyUnique P d s hashes c h).u = hashes.foldl (fun u v => Unique.insertVal P u (hashKey v)) s.u := by
+  unfold applyUnique
+  have : hashes.isEmpty = false := by cases hashes with
+    | nil => exact absurd rfl hne
+    | cons a l => rfl
+  simp [this]
+
+/-- non-vacuity: unique [1 2 2 100] with count 20 (the comment in the Go source): sum = 105·20/4, in quarter units 2100 -/
+example : (uniqueItem [1, 2, 2, 100] 80 7).sum = 2100 ∧ (uniqueItem [1, 2, 2, 100] 80 7).vmin = 1 ∧
+    (uniqueItem [1, 2, 2, 100] 80 7).vmax = 100 ∧ (uniqueItem [1, 2, 2, 100] 80 7).cnt = 80 := by decide
+
 
 end SH.C04
